@@ -1,5 +1,6 @@
 import PV.Common.Proto
 import PV.C02.Model
+import PV.C02.RParse
 import Drv.SexpC
 /-!
   Driver for C02: `rangesok <mode> <hex src> <hex canonical tree with ranges>` -> `ok` or `bad <violated checks>`
@@ -7,7 +8,7 @@ import Drv.SexpC
   the request is what the real parser produces for the source (so a disagreement means: the real tree fails
   the structural property).
 -/
-open PV PV.C02 SexpC
+open PV PV.C02 SexpC PV.Expr PV.C11
 
 def parseRange (s : String) : Option (Nat × Nat) :=
   if s.startsWith "@" then
@@ -35,6 +36,134 @@ def insertSorted (x : String) : List String → List String
   | [] => [x]
   | y :: ys => if x == y then y :: ys else if x < y then x :: y :: ys else y :: insertSorted x ys
 
+/-! ### `rexpr <hex src> <spans>`: the ranged canonical tree computed by the model `PV.C02.parseRExpression`
+  from the tokens of the source (`PV.C11.lex`) and the REAL byte spans of the attachment. -/
+
+def hexU (cs : List Nat) : String := hex (utf8Encode cs)
+
+def hex16 (n : Nat) : String :=
+  String.ofList ((List.range 16).map fun i => hexDigit ((n / 16 ^ (15 - i)) % 16))
+
+def rgS (r : Rg) : String := s!"@{r.1}..{r.2}"
+
+def boolOpName : BoolOp → String
+  | .and => "And" | .or => "Or"
+
+def binOpName : BinOp → String
+  | .add => "Add" | .sub => "Sub" | .mult => "Mult" | .matMult => "MatMult" | .div => "Div"
+  | .mod => "Mod" | .pow => "Pow" | .lShift => "LShift" | .rShift => "RShift" | .bitOr => "BitOr"
+  | .bitXor => "BitXor" | .bitAnd => "BitAnd" | .floorDiv => "FloorDiv"
+
+def unaryOpName : UnaryOp → String
+  | .invert => "Invert" | .not => "Not" | .uAdd => "UAdd" | .uSub => "USub"
+
+def cmpOpName : CmpOp → String
+  | .eq => "Eq" | .notEq => "NotEq" | .lt => "Lt" | .ltE => "LtE" | .gt => "Gt" | .gtE => "GtE"
+  | .is => "Is" | .isNot => "IsNot" | .in => "In" | .notIn => "NotIn"
+
+def constS : Const → String
+  | .none => "(value None) (kind None)"
+  | .bool true => "(value (Bool true)) (kind None)"
+  | .bool false => "(value (Bool false)) (kind None)"
+  | .ellipsis => "(value Ellipsis) (kind None)"
+  | .int n => s!"(value (Int i:{n})) (kind None)"
+  | .float b => s!"(value (Float f:{hex16 b})) (kind None)"
+  | .imag b => s!"(value (Complex (real f:0000000000000000) (imag f:{hex16 b}))) (kind None)"
+  | .str s u => s!"(value (Str s:{hexU s})) (kind {if u then "s:75" else "None"})"
+  | .bytes b => s!"(value (Bytes b:{hex b})) (kind None)"
+
+def listS (xs : List String) : String := "[" ++ joinSep " " xs ++ "]"
+
+def argS (a : Rg × Ident) : String := s!"(Arg {rgS a.1} (arg s:{hexU a.2}) (annotation None) (type_comment None))"
+
+mutual
+partial def dumpR : RExpr → String
+  | .name rg id => s!"(ExprName {rgS rg} (id s:{hexU id}))"
+  | .const rg c => s!"(ExprConstant {rgS rg} {constS c})"
+  | .boolOp rg o vs => s!"(ExprBoolOp {rgS rg} (op {boolOpName o}) (values {listS (vs.map dumpR)}))"
+  | .namedExpr rg t v => s!"(ExprNamedExpr {rgS rg} (target {dumpR t}) (value {dumpR v}))"
+  | .binOp rg l o r => s!"(ExprBinOp {rgS rg} (left {dumpR l}) (op {binOpName o}) (right {dumpR r}))"
+  | .unaryOp rg o e => s!"(ExprUnaryOp {rgS rg} (op {unaryOpName o}) (operand {dumpR e}))"
+  | .lambda rg arg po ar va ko kw b =>
+    s!"(ExprLambda {rgS rg} (args (Arguments {rgS arg} (posonlyargs {listS (po.map dumpParam)}) (args {listS (ar.map dumpParam)}) (vararg {optS argS va}) (kwonlyargs {listS (ko.map dumpParam)}) (kwarg {optS argS kw}))) (body {dumpR b}))"
+  | .ifExp rg t b o => s!"(ExprIfExp {rgS rg} (test {dumpR t}) (body {dumpR b}) (orelse {dumpR o}))"
+  | .dict rg items =>
+    s!"(ExprDict {rgS rg} (keys {listS (items.map fun | .mk k _ => optS dumpR k)}) (values {listS (items.map fun | .mk _ v => dumpR v)}))"
+  | .set rg es => s!"(ExprSet {rgS rg} (elts {listS (es.map dumpR)}))"
+  | .listComp rg e gs => s!"(ExprListComp {rgS rg} (elt {dumpR e}) (generators {listS (gs.map dumpComp)}))"
+  | .setComp rg e gs => s!"(ExprSetComp {rgS rg} (elt {dumpR e}) (generators {listS (gs.map dumpComp)}))"
+  | .dictComp rg k v gs =>
+    s!"(ExprDictComp {rgS rg} (key {dumpR k}) (value {dumpR v}) (generators {listS (gs.map dumpComp)}))"
+  | .genExp rg e gs => s!"(ExprGeneratorExp {rgS rg} (elt {dumpR e}) (generators {listS (gs.map dumpComp)}))"
+  | .await rg e => s!"(ExprAwait {rgS rg} (value {dumpR e}))"
+  | .yield rg e => s!"(ExprYield {rgS rg} (value {optS dumpR e}))"
+  | .yieldFrom rg e => s!"(ExprYieldFrom {rgS rg} (value {dumpR e}))"
+  | .compare rg l ops cs =>
+    s!"(ExprCompare {rgS rg} (left {dumpR l}) (ops {listS (ops.map cmpOpName)}) (comparators {listS (cs.map dumpR)}))"
+  | .call rg f as ks =>
+    s!"(ExprCall {rgS rg} (func {dumpR f}) (args {listS (as.map dumpR)}) (keywords {listS (ks.map dumpKw)}))"
+  | .formattedValue rg v c spec =>
+    s!"(ExprFormattedValue {rgS rg} (value {dumpR v}) (conversion i:{if c = 0 then "-1" else toString c}) (format_spec {optS dumpR spec}))"
+  | .joinedStr rg vs => s!"(ExprJoinedStr {rgS rg} (values {listS (vs.map dumpR)}))"
+  | .attribute rg e a => s!"(ExprAttribute {rgS rg} (value {dumpR e}) (attr s:{hexU a}))"
+  | .subscript rg e sl => s!"(ExprSubscript {rgS rg} (value {dumpR e}) (slice {dumpR sl}))"
+  | .starred rg e => s!"(ExprStarred {rgS rg} (value {dumpR e}))"
+  | .list rg es => s!"(ExprList {rgS rg} (elts {listS (es.map dumpR)}))"
+  | .tuple rg es => s!"(ExprTuple {rgS rg} (elts {listS (es.map dumpR)}))"
+  | .slice rg a b c => s!"(ExprSlice {rgS rg} (lower {optS dumpR a}) (upper {optS dumpR b}) (step {optS dumpR c}))"
+partial def optS {α} (f : α → String) : Option α → String
+  | none => "None"
+  | some a => f a
+partial def dumpParam : RParam → String
+  | .mk rg drg n d =>
+    s!"(ArgWithDefault {rgS rg} (def (Arg {rgS drg} (arg s:{hexU n}) (annotation None) (type_comment None))) (default {optS dumpR d}))"
+partial def dumpComp : RComp → String
+  | .mk rg t i ifs a =>
+    s!"(Comprehension {rgS rg} (target {dumpR t}) (iter {dumpR i}) (ifs {listS (ifs.map dumpR)}) (is_async {if a then "true" else "false"}))"
+partial def dumpKw : RKeyword → String
+  | .mk rg a v => s!"(Keyword {rgS rg} (arg {match a with | some n => "s:" ++ hexU n | none => "None"}) (value {dumpR v}))"
+end
+
+partial def treeEq : Tree → Tree → Bool
+  | .node k s l r cs, .node k' s' l' r' cs' =>
+    k == k' && s == s' && l == l' && r == r' && cs.length == cs'.length &&
+      (cs.zip cs').all fun (a, b) => treeEq a b
+
+def parseSpans (s : String) : Option (List Rg) :=
+  if s == "-" then some [] else
+  (s.splitOn ",").mapM fun w =>
+    match w.splitOn "-" with
+    | [a, b] => match a.toNat?, b.toNat? with
+      | some a, some b => some (a, b)
+      | _, _ => none
+    | _ => none
+
+/-- the answer for a ranged tree: its canonical text, after checking that the generic tree the theorems talk
+    about (`RExpr.toTree`) is the one the canonical text denotes -/
+def answerTree (e : RExpr) : String :=
+  let text := dumpR e
+  match parseSexp text with
+  | some raw =>
+    match toTree "root" false raw with
+    | some t => if treeEq t (e.toTree "root" false) then text else "toTree-mismatch " ++ text
+    | none => "toTree-unreadable " ++ text
+  | none => "sexp-unreadable " ++ text
+
+def handleRExpr (src att : String) : String :=
+  match (unhex src).bind utf8Decode, parseSpans att with
+  | some cs, some spans =>
+    match lex cs with
+    | none => "lex-none"
+    | some tks =>
+      if tks.length != spans.length then s!"lex-count-mismatch {tks.length} {spans.length}"
+      else if lexSpans 0 cs != spans then "lex-span-mismatch"
+      else
+        let toks : List RTok := (tks.zip spans).map fun (t, (a, b)) => ⟨t, a, b⟩
+        match parseRExpression toks with
+        | none => "parse-none"
+        | some e => answerTree e
+  | _, _ => "bad-request"
+
 def handle : List String → String
   | ["rangesok", _mode, src, tree] =>
     match unhex src, (unhex tree).bind utf8Decode with
@@ -48,6 +177,7 @@ def handle : List String → String
         | none => "bad-tree"
       | none => "bad-sexp"
     | _, _ => "bad-request"
+  | ["rexpr", src, att] => handleRExpr src att
   | _ => "bad-request"
 
 def main : IO Unit := protoLoop handle
